@@ -59,7 +59,7 @@ struct Totals
     std::map<std::string, long> distinct_shapes;
 };
 
-static int g_fmax = 3, g_nmax = 3, g_cmax = 3;
+static int g_fmax = 3, g_nmax = 3, g_cmax = 3, g_cells = 8;
 
 template <class LS>
 struct Run
@@ -195,8 +195,8 @@ struct Run
             for (int base = 0; base < 2; ++base)
                 for (int n = 0; n <= g_nmax; ++n)
                 {
-                    // bound the number of count cells (n x NV <= 8): the distributions are enumerated completely below it
-                    if (LS::NV > 0 && static_cast<std::size_t>(n) * LS::NV > 8 && n > 1) break;
+                    // bound the number of count cells (n x NV <= --cells): the distributions are enumerated completely below it
+                    if (LS::NV > 0 && static_cast<std::size_t>(n) * LS::NV > static_cast<std::size_t>(g_cells) && n > 1) break;
                     // all count matrices n x NV over 0..cmax
                     const std::size_t cells = static_cast<std::size_t>(n) * LS::NV;
                     std::vector<std::size_t> flat(cells, 0);
@@ -277,6 +277,7 @@ int main(int argc, char** argv)
         else if (a == "--nmax") g_nmax = std::atoi(argv[++i]);
         else if (a == "--cmax") g_cmax = std::atoi(argv[++i]);
         else if (a == "--fmax") g_fmax = std::atoi(argv[++i]);
+        else if (a == "--cells") g_cells = std::atoi(argv[++i]);
     }
     __asan_set_error_report_callback(asan_cb);
     const auto t0 = std::chrono::steady_clock::now();
@@ -285,7 +286,7 @@ int main(int argc, char** argv)
     const double wall = std::chrono::duration<double>(std::chrono::steady_clock::now() - t0).count();
     std::ostringstream js;
     js << "{\"lists\": " << tot.lists << ", \"cases\": " << tot.cases << ", \"elements\": " << tot.elements << ", \"wall_s\": " << wall
-       << ", \"nmax\": " << g_nmax << ", \"cmax\": " << g_cmax << ", \"fmax\": " << g_fmax << ",\n \"samples\": [";
+       << ", \"nmax\": " << g_nmax << ", \"cmax\": " << g_cmax << ", \"fmax\": " << g_fmax << ", \"cells\": " << g_cells << ",\n \"samples\": [";
     for (size_t i = 0; i < tot.samples.size(); ++i) js << (i ? ", " : "") << "\"" << jesc(tot.samples[i]) << "\"";
     js << "],\n \"violations\": [";
     bool first = true;
